@@ -2,7 +2,8 @@ SPECIFICATION TSpec
 CONSTANTS
   Threads = {1, 2}
   Dev = {"gateAnyOrder"}
-  Lenient = TRUE
+  LenientGenDrop = FALSE
+  LenientOrder = TRUE
 CONSTRAINT HighWater
 POSTCONDITION Post
 CHECK_DEADLOCK FALSE
